@@ -982,6 +982,10 @@ def diff_construct(d: Diff, n: int):
             c, e = a, b
         elif k < 0.4:
             e = ("V2", (c[1][0] + (b[1][0] - a[1][0]) * (1 + 1e-11), c[1][1] + (b[1][1] - a[1][1])))  # nearly parallel
+        elif k < 0.55:
+            c = r.choice([a, b])  # the second line starts exactly on an end point of the first (parameter 0 or 1)
+        elif k < 0.62:
+            e = r.choice([a, b])
         virt = r.random() < 0.5
         d.call("construct.intersection_line_line_2d", [a, b, c, e, R(virt)],
                lambda im, p, q, s, t, v: im.construct.intersection_line_line_2d((p, q), (s, t), v))
